@@ -265,6 +265,27 @@ def loop_bodies(ctx, repo, m):
     n += syntactic_guard(ctx, lt, fl, 'memory', lt.relpath)
     if n < 4:
         raise report.AnalysisError('expected at least 4 memory stores in ldir_fast/fast_load, found %d' % n)
+    # value ranges inside the loop body of ldir_fast: statement-level abstract interpretation with widening
+    from sa.core import stmtabs
+    from sa.core.absdom import const
+    ctx.rule('C08.2-loop', 'ldir_fast (while loop): register stores in range, stored bytes 0..255, memory indices 0..65535, T increment >= 0 (interval analysis with widening)', floor=20)
+    clo = effects.closure_of(fac)
+    for inc in (1, -1):
+        sa_ = stmtabs.StmtAbs(m.py.regconsts, {'inc': const(inc)})
+        try:
+            sa_.run(clo.body, {})
+        except NotImplementedError as e:
+            ctx.limit('ldir_fast inc=%d' % inc, 'statement not modelled: %s' % e)
+            continue
+        last = {}
+        for o in sa_.obligations:
+            last[(o.kind, o.line)] = o
+        for (kind, line), o in sorted(last.items(), key=lambda x: (x[0][1], x[0][0])):
+            if o.ok:
+                ctx.ok({'body': 'ldir_fast(inc=%d)' % inc, 'obligation': kind, 'line': line, 'range': repr(o.value)})
+            else:
+                ctx.violation('ldir_fast(inc=%d) %s: %s' % (inc, kind, o.text[:50]), '%s:%d' % (m.py.mod.relpath, line),
+                              'in the fast LDIR/LDDR loop `%s` has range %s, outside what %s allows' % (o.text[:100], o.value, kind))
 
 def run(ctx):
     repo = pyfacts.Repo(ctx.repo_root)
